@@ -69,10 +69,12 @@ def mutate(value):
 
 class PostTag(object):
     """Post-element (run): re-tags every result; dup=True yields each result twice, drop_empty=True
-    yields nothing for a result without positions."""
+    yields nothing for a result without positions, count=True appends the number of values this very
+    object has processed (1 for a private copy used once)."""
 
-    def __init__(self, dup=False, drop_empty=False):
-        self.dup, self.drop_empty = dup, drop_empty
+    def __init__(self, dup=False, drop_empty=False, count=False):
+        self.dup, self.drop_empty, self.count = dup, drop_empty, count
+        self.seen = 0
 
     def run(self, flow):
         import lena.flow
@@ -80,12 +82,17 @@ class PostTag(object):
             (tag, ids), context = lena.flow.get_data_context(value)
             if self.drop_empty and not ids:
                 continue
+            self.seen += 1
+            if self.count:
+                # a stateful element: appends how many values this object has processed
+                ids = tuple(ids) + (self.seen,)
             yield (("p" + tag, ids), context)
             if self.dup:
                 yield (("q" + tag, ids), copy.deepcopy(context))
 
 
-MAPS = {"tag": lambda: PostTag(), "dup": lambda: PostTag(dup=True), "drop": lambda: PostTag(drop_empty=True)}
+MAPS = {"tag": lambda: PostTag(), "dup": lambda: PostTag(dup=True), "drop": lambda: PostTag(drop_empty=True),
+        "seen": lambda: PostTag(count=True)}
 
 
 KINDS = ("collect", "collect2", "nonempty", "pervalue", "shift", "mutate", "post", "postdup")
